@@ -17,6 +17,16 @@ def zi(x):
     return x.z() if isinstance(x, I) else (z3.IntVal(x) if isinstance(x, int) else x)
 
 
+def int_to_fp(e, depth=0):
+    """Int term -> Float64 term; ite trees over numerals become ite trees over FP constants
+    (int->real->float conversion of a free integer is very expensive for the solver)"""
+    if z3.is_int_value(e):
+        return z3.FPVal(float(e.as_long()), V.FP)
+    if z3.is_app_of(e, z3.Z3_OP_ITE) and depth < 12:
+        return z3.If(e.arg(0), int_to_fp(e.arg(1), depth + 1), int_to_fp(e.arg(2), depth + 1))
+    return z3.fpToFP(V.RM, z3.ToReal(e), V.FP)
+
+
 class EntryV:
     __slots__ = ("place", "key")
 
@@ -77,7 +87,12 @@ class BuiltinsBase:
         if isinstance(a, I):
             if a.conc():
                 return F(float(a.v))
-            return F(z3.fpToFP(V.RM, z3.ToReal(a.z()), V.FP))
+            if a.ub is not None and a.ub <= 64:
+                e = z3.FPVal(float(a.ub), V.FP)
+                for k in range(a.ub - 1, -1, -1):
+                    e = z3.If(a.z() == k, z3.FPVal(float(k), V.FP), e)
+                return F(e)
+            return F(int_to_fp(a.z()))
         raise Unsupported("to_f %r" % (a,))
 
     def binop(self, op, a, b):
@@ -170,6 +185,8 @@ class BuiltinsBase:
         if isinstance(v, I):
             if ty in ("f64", "f32"):
                 return self.to_f(v)
+            if v.ub is not None and ty in V.INT_RANGES:
+                return I(v.v, ty, v.ub)
             if ty in V.INT_RANGES:
                 lo, hi = V.INT_RANGES[ty]
                 if v.conc():
